@@ -322,6 +322,8 @@ def check(ctx):
               "T3-exit", fx, "Frame.exit: auxes exited before own exit actions",
               "auxiliaries of a frame must be exited (bottom-up) before the frame's own exit actions")
 
+    exceptions_reach_the_scheduler(ctx)
+
     # ---- defect scope
     entries = [fn, mr]
     for c in ctx.repo.all_classes():
@@ -369,3 +371,40 @@ def _enclosing_try_with_finally(node, fn):
             return p
         c, p = p, parent(p)
     return None
+
+
+ACTION_CHAIN = [("framing", "Framer"), ("framing", "Frame"), ("acting", "Act"), ("acting", "Actor"), ("tasking", "Tasker")]
+ACTION_CALLS = {"enter", "exit", "recur", "precur", "renter", "rexit", "segue", "enterAll", "exitAll", "change", "activate",
+                "action", "actor", "act", "send", "checkEnter", "checkStart"}
+
+
+def exceptions_reach_the_scheduler(ctx):
+    """an exception raised by an action travels up through Act.__call__, the Frame/Framer context methods and the runner
+    generator to Skedder.run (which re-raises it after the sweep): nothing on that chain may catch it and carry on"""
+    ctx.rule("T10-propagate", "no handler on the chain runner -> Framer/Frame context methods -> Act.__call__ -> actor swallows an "
+             "exception: broad handlers (bare / Exception / BaseException) re-raise; narrow ones do not enclose a call of an action")
+    k = 0
+    for modn, cn in ACTION_CHAIN:
+        C = ctx.cls(modn, cn)
+        for mname, f in sorted(C.methods.items()):
+            k += 1
+            for t in ast.walk(f):
+                if not isinstance(t, ast.Try):
+                    continue
+                inner = {x.func.attr if isinstance(x.func, ast.Attribute) else x.func.id if isinstance(x.func, ast.Name) else ""
+                         for st in t.body for x in ast.walk(st) if isinstance(x, ast.Call)}
+                for h in t.handlers:
+                    names = [dotted(e) for e in (h.type.elts if isinstance(h.type, ast.Tuple) else [h.type])] if h.type is not None else [None]
+                    broad = any(n in (None, "Exception", "BaseException") for n in names)
+                    last = h.body[-1] if h.body else None
+                    jumps = [x for s_ in h.body for x in ast.walk(s_) if isinstance(x, (ast.Return, ast.Break, ast.Continue))]
+                    reraises = isinstance(last, ast.Raise) and not jumps
+                    if broad:
+                        ctx.check(reraises, "T10-propagate", h, "%s.%s: except %s re-raises" % (cn, mname, names),
+                                  "an exception raised by an action (enter, exit, recur, precur, transition .. act) must reach "
+                                  "Skedder.run, which aborts the remaining taskers and re-raises it; a handler that logs it and carries "
+                                  "on makes the run continue as if nothing had happened")
+                    elif inner & ACTION_CALLS and not (names == ["StopIteration"] or names == ["GeneratorExit"]):
+                        ctx.check(reraises, "T10-propagate", h, "%s.%s: except %s around %s re-raises" % (cn, mname, names, sorted(inner & ACTION_CALLS)),
+                                  "a handler around the call of an action catches what the action raised")
+    ctx.floor("T10-propagate:methods", k, 60)
